@@ -19,7 +19,7 @@ var Alphabet14 = []string{"a", " ", "\n", "*", "_", "`", "[", "]", "(", ")", "<"
 var Alphabet18 = []string{"a", " ", "\n", "\t", "*", "_", "`", "[", "]", "(", ")", "<", ">", "#", "-", "\\", "!", "&"}
 
 // AlphabetWide adds the remaining units used by extensions and hostile bytes.
-var AlphabetWide = []string{"a", " ", "\n", "\t", "\r", "*", "_", "`", "[", "]", "(", ")", "<", ">", "#", "-", "+", "1.", "\\", "!", "&", ":", "|", "~", "=", "\"", "'", "\x00", "\x80", "é", "あ", "^", "{", "}", ".", "/"}
+var AlphabetWide = []string{"a", " ", "\n", "\t", "\r", "*", "_", "`", "[", "]", "(", ")", "<", ">", "#", "-", "+", "1.", "\\", "!", "&", ":", "|", "~", "=", "\"", "'", "\x00", "\x80", "é", "あ", "^", "{", "}", ".", "/", "9", "0", "s", "w", "@", ";", "%", "$", ",", "?"}
 
 // ShortCount returns the number of strings of length 0..maxLen over an alphabet of k units.
 func ShortCount(k, maxLen int) int {
@@ -70,8 +70,9 @@ var Tokens = []string{
 	"\\", "\\*", "\\[", "\\\\", "\\\n", "  \n", "\\ ", "&", "&amp;", "&#35;", "&#x23;", "&#0;", "&#xD800;", "&#1234567;", "&foo;", "&copy", "&quot;", "&ouml;",
 	// extensions
 	"|", "| a | b |", "|---|---|", "| :-- | --: |", "|:-:|", "a | b", "--- | ---", "\\|", "~~", "~", "~~~", "[ ] ", "[x] ", "[X] ", "- [ ] ", "[^1]", "[^1]: ", "[^a]", "[^a]: note", "\n[^1]: n\n", "![^1]",
-	": ", "\n: def", "term\n: def", "'", "\"", "--", "---", "...", "<<", ">>", "'s", "\"q\"",
+	": ", "\n: def", "term\n: def", "'", "\"", "--", "---", "...", "<<", ">>", "'s", "\"q\"", "'90", "'90s", "'tis", "''", "\"\"", "1/2", "9", "0", "'a'", "a'b", "(\"", "\")",
 	"{#id}", "{.c}", "{#i .c k=\"v\"}", "{k=v}", " {#x}", "{", "}", "{#a<b}",
+	"{id=1}", "{id=true}", "{id=-1.5e3}", "{id=[1,\"a\"]}", "{id={a=1}}", "{id=\"x\"}", "{class=1}", "{.a class=\"b\"}", "{id=null}", "{title=\"a\\\"b\"}", "{data-x=1}", "{onclick=\"x\"}", "# h {id=1}\n", "h {id=1}\n===\n",
 	// schemes
 	"javascript:", "JAVASCRIPT:", "vbscript:", "file:", "data:", "data:image/png;", "data:text/html,",
 	// hostile bytes
